@@ -10,13 +10,15 @@ metadata).  Ties, checked on every run:
 """
 import concurrent.futures as cf
 import json
+import os
+import re
 
 import genmodels
-from bind_export import cstr as bcstr
-from common import Check, coq_bad_indices, coq_eval, run_impl, standard_proof_step, TRUSTED_COMMON, BuildError
-from coqterm import cbool
+from common import (Check, coq_eval, run_impl, standard_proof_step, TRUSTED_COMMON, BuildError, CORR, COQ, _coqc)
+from coqterm import cbool, cstr, copt, clist
 
-IMPORTS = "From XV Require Import Base.Str Base.Eqb Model.Bind Model.EventGen Model.EventGenCorr."
+IMPORTS = ("From XV Require Import Base.Str Base.Eqb Model.Bind Model.EventGen Model.EventGenCorr "
+           "Spec.MetaSpec Model.Builder Model.BuilderCorr.")
 SLICE_MIX = [("F1",), ("F1",), ("F1", "F2"), ("F1", "F2", "F3"), ("F1", "F2", "F3")]
 
 
@@ -97,81 +99,284 @@ def mutate_recipe(r, desc, rec):
     return rec
 
 
+# ------------------------------------------------------------------ description -> Spec.MetaSpec.mdesc
+PT = {"str": "TStr", "int": "TInt", "bool": "TBool", "float": "TFloat", "Decimal": "TDecimal", "QName": "TQName",
+      "hex": "TBytes", "b64": "TBytes", "XmlDate": "TXmlDate", "XmlTime": "TXmlTime", "XmlDateTime": "TXmlDateTime",
+      "XmlDuration": "TXmlDuration", "XmlPeriod": "TXmlPeriod"}
+KIND = {"Text": "KText", "Element": "KElement", "Attribute": "KAttribute", "Wildcard": "KWildcard",
+        "Attributes": "KAttributes", "Elements": "KElements"}
+
+
+def desc_term(desc):
+    cid = {c["name"]: i + 1 for i, c in enumerate(desc["classes"])}
+    eid = {e["name"]: i + 1 for i, e in enumerate(desc["enums"])}
+
+    def ptype(tp):
+        if tp is None:
+            return "TObject"
+        if tp[0] == "prim":
+            return PT[tp[1]]
+        if tp[0] == "enum":
+            return f"(TEnum {eid[tp[1]]}%N)"
+        return f"(TClass {cid[tp[1]]}%N)"
+
+    def prim(v):
+        if isinstance(v, bool):
+            return f"(PBool {cbool(v)})"
+        if isinstance(v, int):
+            return f"(PInt ({v})%Z)"
+        return f"(PStr {cstr(v)})"
+
+    def field(f):
+        kind = f["kind"]
+        lst, tok = bool(f.get("list")), bool(f.get("tokens"))
+        has_default = "default" in f
+        if kind in ("Element", "Attribute", "Text"):
+            optional = not lst and not tok and not has_default
+            required = optional and not f.get("optional", True)
+        else:
+            optional = not lst and kind != "Attributes"
+            required = False
+        chs = clist([f"({cstr(ch['name'])}, {ptype(ch['type'])})" for ch in f.get("choices", [])], str, "(str * ptype)")
+        return ("(mk_fdesc " + " ".join([
+            cstr(f["name"]), KIND[kind], copt(f.get("xml_name"), cstr), copt(f.get("namespace"), cstr),
+            ptype(f.get("type")), cbool(lst), cbool(optional), cbool(tok), cbool(f.get("nillable", False)),
+            copt(f.get("sequence"), lambda n: f"{n}%N"), copt(f.get("wrapper"), cstr), copt(f.get("format"), cstr),
+            copt(f["default"], prim) if has_default else "None", cbool(required), cbool(f.get("mixed", False)), chs]) + ")")
+
+    def klass(c):
+        m = c["meta"]
+        return ("(mk_cdesc " + " ".join([
+            f"{cid[c['name']]}%N", cstr(c["name"]), copt(m.get("name"), cstr), copt(m.get("namespace"), cstr),
+            cbool(m.get("nillable", False)), copt(c.get("base"), lambda b: f"{cid[b]}%N"),
+            clist([field(f) for f in c["fields"]], str, "fdesc")]) + ")")
+
+    def enum(e):
+        ms = clist([f"({cstr(n)}, {prim(v)})" for n, v in e["members"]], str, "(str * prim)")
+        return f"(mk_enum {eid[e['name']]}%N {ms})"
+
+    return ("(mk_mdesc " + copt(desc.get("module_ns"), cstr) + " " + clist([klass(c) for c in desc["classes"]], str, "cdesc")
+            + " " + clist([enum(e) for e in desc["enums"]], str, "enum_def") + ")")
+
+
 def chunks(xs, n):
     k = max(1, (len(xs) + n - 1) // n)
     return [xs[i:i + k] for i in range(0, len(xs), k)]
 
 
-def eval_groups(tag, imports, ctype, check, groups, workers=16):
-    """groups: list of (defs, [case terms]); returns list of bad-index lists (one per group)."""
-    def one(i_g):
-        i, (defs, cases) = i_g
-        if not cases:
-            return []
-        return coq_bad_indices(f"{tag}_{i}", imports, defs, ctype, check, cases, shard=100000)
-    with cf.ThreadPoolExecutor(max_workers=workers) as ex:
-        return list(ex.map(one, enumerate(groups)))
+BAD_IDX = """Fixpoint bad_idx {A} (f : A -> bool) (i : nat) (l : list A) : list nat :=
+  match l with [] => [] | x :: r => if f x then bad_idx f (S i) r else i :: bad_idx f (S i) r end."""
 
 
-# ------------------------------------------------------------------ correspondence: EventGen
-def corr_eventgen(ck, models, res, tag="c03b_gen"):
-    """returns (evaluations, skipped, list of failing (mi, ci))"""
-    flat = []      # (mi, ci)
-    groups = []
-    idx_groups = []
-    mids = [i for i, m in enumerate(res["models"]) if m["universe"]]
-    for part in chunks(mids, 16):
-        defs, cases, idx = [], [], []
+def coq_multi(tag, imports, defs, blocks, timeout=900):
+    """One Coq file, several case lists, several boolean checks per list.
+    blocks: [(ctype, [case terms], [check names])] -> [[bad indices per check] per block]"""
+    os.makedirs(CORR, exist_ok=True)
+    path = os.path.join(CORR, f"cases_{tag}.v")
+    body = [imports, "From Coq Require Import NArith ZArith List Bool.", "Import ListNotations.", defs, BAD_IDX]
+    for bi, (ctype, cases, checks) in enumerate(blocks):
+        body.append(f"Definition cases_{bi} : list ({ctype}) := [")
+        body.append(";\n".join(cases))
+        body.append("].")
+        for ch in checks:
+            body.append(f"Eval vm_compute in (bad_idx ({ch}) 0 cases_{bi}).")
+    with open(path, "w") as f:
+        f.write("\n".join(body) + "\n")
+    rc, out, err = _coqc(path, timeout)
+    for ext in (".v", ".vo", ".vok", ".vos", ".glob"):
+        try:
+            os.remove(path[:-2] + ext)
+        except FileNotFoundError:
+            pass
+    try:
+        os.remove(os.path.join(CORR, f".cases_{tag}.aux"))
+    except FileNotFoundError:
+        pass
+    if rc != 0:
+        raise BuildError(os.path.relpath(path, COQ), out + err)
+    lists = re.findall(r"=\s*(\[[^\]]*\])\s*:\s*list nat", out, re.S)
+    want = sum(len(b[2]) for b in blocks)
+    if len(lists) != want:
+        raise BuildError(os.path.relpath(path, COQ), "unparsable output: " + out[-500:])
+    res, k = [], 0
+    for ctype, cases, checks in blocks:
+        row = []
+        for _ in checks:
+            row.append([int(x) for x in re.findall(r"\d+", lists[k])])
+            k += 1
+        res.append(row)
+    return res
+
+
+FC_CHECKS = ["fc_agree", "fc_modelled", "fc_in_guard", "fc_oracle", "fc_theorem", "fc_oracle_raw"]
+
+
+def evaluate(ck, models, res, tag="c03b"):
+    """All Coq-side verdicts in one pass per group of models."""
+    mids = [i for i, m in enumerate(res["models"]) if m["universe"] and m.get("pns") is not None]
+    parts = chunks(mids, 16)
+
+    def one(gi_part):
+        gi, part = gi_part
+        defs, fcs, blds, idx = [], [], [], []
         for mi in part:
             rm = res["models"][mi]
             defs.append(f"Definition u_{mi} : universe := {rm['universe']}.")
+            defs.append(f"Definition d_{mi} : mdesc := {desc_term(models[mi]['desc'])}.")
+            defs.append(f"Definition p_{mi} : list (cls * option str) := {rm['pns']}.")
+            blds.append(f"(d_{mi}, p_{mi}, u_{mi})")
             for ci, c in enumerate(rm["cases"]):
                 if c.get("skip") or not c.get("outcome"):
                     continue
-                ign = cbool(models[mi]["cases"][ci]["ignore"])
-                hos = cbool(models[mi]["cases"][ci].get("hostile", False))
-                cases.append(f"({hos}, (u_{mi}, mk_gen_case {ign} {c['table']} {c['value']} {c['outcome']}))")
+                case = models[mi]["cases"][ci]
+                fcs.append(f"({cbool(case.get('hostile', False))}, u_{mi}, d_{mi}, p_{mi}, "
+                           f"mk_gen_case {cbool(case['ignore'])} {c['table']} {c['value']} {c['outcome']})")
                 idx.append((mi, ci))
-        groups.append(("\n".join(defs), cases))
-        idx_groups.append(idx)
-        flat += idx
-    bads = eval_groups(tag, IMPORTS, "bool * (universe * gen_case)", "agree_gen_stream", groups)
-    failing = [idx_groups[g][i] for g, b in enumerate(bads) for i in b]
-    unm = eval_groups(tag + "_unm", IMPORTS, "bool * (universe * gen_case)", "unmodelled_stream", groups)
-    ck.cov["hostile_cases"] = sum(1 for mi, ci in flat if models[mi]["cases"][ci].get("hostile"))
-    ck.cov["model_answered_unmodelled"] = sum(len(b) for b in unm)
-    return len(flat), failing
+        out = coq_multi(f"{tag}_{gi}", IMPORTS, "\n".join(defs),
+                        [("full_case", fcs, FC_CHECKS), ("mdesc * list (cls * option str) * universe", blds, ["agree_builder"])])
+        return part, idx, out
+
+    verdict = {k: [] for k in FC_CHECKS}
+    verdict["agree_builder"] = []
+    n_cases = 0
+    with cf.ThreadPoolExecutor(max_workers=16) as ex:
+        for part, idx, out in ex.map(one, enumerate(parts)):
+            n_cases += len(idx)
+            for name, bad in zip(FC_CHECKS, out[0]):
+                verdict[name] += [idx[i] for i in bad]
+            verdict["agree_builder"] += [part[i] for i in out[1][0]]
+    return n_cases, len(mids), verdict
 
 
-def describe_failure(models, res, mi, ci, tag):
-    rm = res["models"][mi]
-    c = rm["cases"][ci]
-    ign = cbool(models[mi]["cases"][ci]["ignore"])
+# ------------------------------------------------------------------ replay details
+def case_terms(models, res, mi, ci):
+    rm, c, case = res["models"][mi], res["models"][mi]["cases"][ci], models[mi]["cases"][ci]
+    return {"universe": rm["universe"], "desc": desc_term(models[mi]["desc"]), "pns": rm["pns"],
+            "ignore": cbool(case["ignore"]), "table": c["table"], "value": c["value"], "observed": c["outcome"]}
+
+
+def coq_show(tag, term, defs=""):
     try:
-        got = coq_eval(tag, IMPORTS, f"Definition u0 : universe := {rm['universe']}.",
-                       f"generate {ign} (conv_of_table {c['table']}) u0 {c['value']}")
+        return coq_eval(tag, IMPORTS, defs, term)[:4000]
     except BuildError as e:
-        got = "coq error: " + e.log[-300:]
-    return {"src": models[mi]["src"], "case": models[mi]["cases"][ci], "impl_outcome": c["outcome"][:3000],
-            "impl_error": c.get("error"), "model_outcome": got[:3000],
-            "coq": {"universe": rm["universe"], "ignore": ign, "table": c["table"], "value": c["value"]}}
+        return "coq error: " + e.log[-300:]
 
 
+def describe(models, res, mi, ci, tag, what):
+    t = case_terms(models, res, mi, ci)
+    c = res["models"][mi]["cases"][ci]
+    rep = {"src": models[mi]["src"], "case": models[mi]["cases"][ci], "impl_outcome": c["outcome"][:4000],
+           "impl_error": c.get("error"), "pns": t["pns"], "coq": t}
+    defs = f"Definition u0 : universe := {t['universe']}.\nDefinition d0 : mdesc := {t['desc']}."
+    if what == "model":
+        rep["model_outcome"] = coq_show(tag, f"generate {t['ignore']} (conv_of_table {t['table']}) u0 {t['value']}", defs)
+    else:
+        rep["spec_events"] = coq_show(tag, f"spec_events (conv_of_table {t['table']}) d0 {t['ignore']} {t['value']}", defs)
+        rep["guard_clauses_failing"] = coq_show(
+            tag + "g", f"fc_guard_clauses (false, u0, d0, {t['pns']}, mk_gen_case {t['ignore']} {t['table']} {t['value']} {t['observed']})", defs)
+    return rep
+
+
+# ------------------------------------------------------------------ witnesses of the known findings (replayed every run)
+def F(name, kind, tp=None, **kw):
+    f = {"name": name, "kind": kind}
+    if tp:
+        f["type"] = tp
+    f.update(kw)
+    return f
+
+
+def witness_models():
+    """(finding class, description, recipe): inputs excluded by one guard clause of
+    C03b_eventgen_matches_metadata; the oracle must still fail on them while the finding is open."""
+    out = []
+    # 1. the metadata cache is keyed by the class alone: Child (no namespace of its own) first
+    #    rendered inside urn:a keeps urn:a for its fields when it appears inside urn:b
+    d = {"module_ns": None, "enums": [], "root": "R", "slices": ["F1"], "classes": [
+        {"name": "R", "meta": {"namespace": "urn:r"}, "base": None, "fields": [
+            F("a", "Element", ("class", "A"), optional=True, namespace="urn:a"),
+            F("b", "Element", ("class", "B"), optional=True, namespace="urn:b")]},
+        {"name": "A", "meta": {"namespace": "urn:a"}, "base": None, "fields": [F("c", "Element", ("class", "Child"), optional=True)]},
+        {"name": "B", "meta": {"namespace": "urn:b"}, "base": None, "fields": [F("c", "Element", ("class", "Child"), optional=True)]},
+        {"name": "Child", "meta": {}, "base": None, "fields": [F("x", "Element", ("prim", "str"), optional=True)]}]}
+    child = {"__cls__": "Child", "fields": {"x": {"__p__": "str", "v": "v"}}}
+    rec = {"__cls__": "R", "fields": {"a": {"__cls__": "A", "fields": {"c": child}}, "b": {"__cls__": "B", "fields": {"c": child}}}}
+    out.append(("cache-keyed-by-class-namespace", d, rec))
+    # 3. the serializer hands a namespace-less class the namespace of the enclosing ELEMENT
+    #    ({urn:r}a), the documentation / parser the namespace of the enclosing CLASS (A: urn:a)
+    d = {"module_ns": None, "enums": [], "root": "R", "slices": ["F1"], "classes": [
+        {"name": "R", "meta": {"namespace": "urn:r"}, "base": None, "fields": [F("a", "Element", ("class", "A"), optional=True)]},
+        {"name": "A", "meta": {"namespace": "urn:a"}, "base": None, "fields": [F("c", "Element", ("class", "Child"), optional=True)]},
+        {"name": "Child", "meta": {}, "base": None, "fields": [F("x", "Element", ("prim", "str"), optional=True)]}]}
+    out.append(("inherits-element-namespace", d, {"__cls__": "R", "fields": {"a": {"__cls__": "A", "fields": {"c": child}}}}))
+    # 2. empty list in a nillable list-of-token-lists field: one xsi:nil element instead of none
+    d = {"module_ns": None, "enums": [], "root": "R", "slices": ["F1"], "classes": [
+        {"name": "R", "meta": {}, "base": None, "fields": [
+            F("t", "Element", ("prim", "int"), list=True, tokens=True, nillable=True, optional=False)]}]}
+    out.append(("nillable-token-lists-empty", d, {"__cls__": "R", "fields": {"t": []}}))
+    return out
+
+
+# ------------------------------------------------------------------ the check
 def run(ck: Check):
-    obligations, discharged, axioms = standard_proof_step(ck, extra_targets=["Model/EventGenCorr.vo"])
+    obligations, discharged, axioms = standard_proof_step(
+        ck, extra_targets=["Model/EventGenCorr.vo", "Model/BuilderCorr.vo"])
     n_models = ck.n(200, 3000)
     per_model = ck.n(6, 8)
-    models = gen_models(ck, n_models, per_model)
+    wit = witness_models()
+    models = []
+    for cls, desc, rec in wit:
+        models.append({"desc": desc, "src": genmodels.render_source(desc), "classes": [c["name"] for c in desc["classes"]],
+                       "enums": [], "cases": [{"recipe": rec, "ignore": False, "derived": None, "hostile": False}],
+                       "witness": cls})
+    models += gen_models(ck, n_models, per_model)
     res = run_impl("impl_eventgen.py", {"models": [{k: m[k] for k in ("src", "classes", "enums", "cases")} for m in models]},
                    timeout=1500)
     unsupported = [(i, m["unsupported"]) for i, m in enumerate(res["models"]) if m["unsupported"]]
     skipped = sum(1 for m in res["models"] for c in m["cases"] if c.get("skip"))
-    n_eval, failing = corr_eventgen(ck, models, res)
-    ck.notes.append(f"corr-eventgen failing cases: {len(failing)}")
-    for mi, ci in failing[:5]:
-        rep = describe_failure(models, res, mi, ci, f"c03b_dbg_{mi}_{ci}")
-        ck.failure("corr-eventgen", "EventGen model and EventGenerator disagree on a generated (model, instance)", rep)
+    for i, why in unsupported[:3]:
+        if i < len(wit):
+            ck.failure("harness-witness", "a known-finding witness could not be run: " + why, {"src": models[i]["src"]})
+    n_eval, n_bld, v = evaluate(ck, models, res)
+    nw = len(wit)
+    is_wit = lambda mi: mi < nw   # noqa: E731
+
+    # 1. correspondence model <-> implementation (events)
+    for mi, ci in [x for x in v["fc_agree"]][:4]:
+        ck.failure("corr-eventgen", "EventGen model and EventGenerator disagree on a generated (model, instance)",
+                   describe(models, res, mi, ci, f"c03b_dbg_{mi}_{ci}", "model"))
+    # 2. correspondence Builder <-> XmlContext.build
+    for mi in v["agree_builder"][:3]:
+        rm = res["models"][mi]
+        ck.failure("corr-builder", "Builder.universe_of(description) differs from the universe XmlContext built",
+                   {"src": models[mi]["src"], "desc": models[mi]["desc"], "pns": rm["pns"],
+                    "diff (parts 1 metas 2 mro 3 bases 4 xsi 5 enums 6 names, classes)":
+                        coq_show(f"c03b_bdbg_{mi}", f"builder_diff ({desc_term(models[mi]['desc'])}, {rm['pns']}, {rm['universe']})"),
+                    "coq": {"desc": desc_term(models[mi]["desc"]), "universe": rm["universe"]}})
+    # 3. the specification on the implementation's answers, inside the theorem's guard
+    for mi, ci in v["fc_oracle"][:3]:
+        ck.failure("spec-events-differ", "the implementation's events differ from the events the metadata prescribe (inside the guard)",
+                   describe(models, res, mi, ci, f"c03b_sdbg_{mi}_{ci}", "spec"))
+    for mi, ci in v["fc_theorem"][:3]:
+        ck.failure("theorem-instance", "EventGen model on the Builder universe differs from spec_events inside the guard",
+                   describe(models, res, mi, ci, f"c03b_tdbg_{mi}_{ci}", "spec"))
+    # 4. witnesses of the open findings: outside the guard, and the oracle still fails
+    raw_bad = set(v["fc_oracle_raw"])
+    out_guard = set(v["fc_in_guard"])
+    for mi, (cls, desc, rec) in enumerate(wit):
+        if res["models"][mi]["unsupported"]:
+            continue
+        if (mi, 0) in raw_bad and (mi, 0) in out_guard:
+            ck.failure(cls, "witness replayed: implementation events differ from the metadata reading",
+                       describe(models, res, mi, 0, f"c03b_wit_{mi}", "spec"))
+        elif (mi, 0) not in out_guard:
+            ck.failure("witness-inside-guard", f"the witness of {cls} satisfies the guard", {"src": models[mi]["src"]})
+        else:
+            ck.notes.append(f"witness of {cls}: the implementation now agrees with the metadata reading")
     # coverage
+    gen_cases = [(mi, ci) for mi, rm in enumerate(res["models"]) if not is_wit(mi) for ci, c in enumerate(rm["cases"])
+                 if c.get("outcome") and not c.get("skip")]
+    in_guard = [x for x in gen_cases if x not in out_guard]
     outcomes = set()
     errs = 0
     by_slice = {}
@@ -179,19 +384,25 @@ def run(ck: Check):
         for ci, c in enumerate(rm["cases"]):
             if c.get("outcome") and (c.get("events") or 0) > 2:
                 outcomes.add(hash(c["outcome"]))
-            if c.get("outcome", "").startswith("(Err"):
+            if (c.get("outcome") or "").startswith("(Err"):
                 errs += 1
         s = "+".join(models[mi]["desc"]["slices"])
         by_slice[s] = by_slice.get(s, 0) + len(rm["cases"])
     ck.cov["evaluations"] = n_eval
     ck.cov["distinct_nontrivial"] = len(outcomes)
     ck.cov["rule"] = "distinct implementation event lists with more than 2 events"
+    ck.cov["builder_models_compared"] = n_bld
+    ck.cov["spec_oracle_cases_inside_guard"] = len(in_guard)
+    ck.cov["hostile_cases"] = sum(1 for mi, ci in gen_cases if models[mi]["cases"][ci].get("hostile"))
+    ck.cov["model_answered_unmodelled"] = len(v["fc_modelled"])
+    ck.cov["oracle_differs_outside_guard"] = len([x for x in raw_bad if x in out_guard and not is_wit(x[0])])
     ck.cov["input_distribution"] = {"models": n_models, "instances_per_model": per_model, "by_slices": by_slice,
                                     "impl_exceptions": errs, "models_unsupported": len(unsupported),
                                     "cases_skipped": skipped, "unsupported_samples": [u[1][:160] for u in unsupported[:4]]}
-    ck.cov["samples"] = [models[0]["src"][-400:]]
+    ck.cov["samples"] = [models[nw]["src"][-400:]] if len(models) > nw else []
     return ck.finish(obligations=obligations, discharged=discharged,
-                     checker_cmd="make Properties/C03b.vo; coqc Corr/cases_c03b_*.v",
+                     checker_cmd="make Properties/C03b.vo Model/EventGenCorr.vo Model/BuilderCorr.vo; coqc Corr/cases_c03b_*.v",
                      trusted_base=TRUSTED_COMMON + ["harness/bind_export.py (real XmlMeta/objects/events -> Gallina)",
+                                                    "harness/c03b.py desc_term (description dict -> Spec.MetaSpec.mdesc)",
                                                     "recorded converter table (ConverterFactory wrapped in the impl process)"],
                      assumptions=axioms)
